@@ -4,11 +4,12 @@
    "Length" below is travelled length along the sampled polyline -- what the mechanism controls; the
    chord between the two kept vertices is never longer, and for a circle of radius r an arc of
    length s has chord 2 r sin(s / 2r): C12_chord / C12_sagitta bound chord and chord error from s.
-   PARTIAL: the theorems are about the exact-rational model of the filter; the implementation runs it
-   in binary64 (tied by the correspondence on dyadic inputs, where binary64 is exact); the halving
+   PARTIAL: the theorems are about the rational model of the filter; the implementation runs it in binary64
+   (tied by the correspondence on dyadic inputs, where binary64 is exact; C12_filter_robust shows that the bounds
+   survive any run whose comparisons are only correct up to an accumulated error delta); the halving
    clause is proved under an explicit hypothesis on the two sampled polylines (C12_halving). *)
 From Coq Require Import ZArith QArith Qround Bool List Reals.
-From GS Require Import model.TracerQ proofs.TracerQProofs proofs.ChordProofs.
+From GS Require Import gen.GenTables model.TracerQ proofs.TracerQProofs proofs.ChordProofs proofs.TracerRobust.
 Import ListNotations.
 Open Scope Q_scope.
 
@@ -55,6 +56,22 @@ Theorem C12_halving : forall res dmax2 ds1 ds2, 0 < res -> 0 <= dmax2 ->
   (length (segments res ds1) <= length (segments (res / 2) ds2))%nat.
 Proof. exact halving_never_fewer. Qed.
 Print Assumptions C12_halving.
+
+(* ROBUSTNESS to inexact arithmetic: the implementation tracks `remaining` in binary64.  rmask res delta describes every
+   run of the filter in which each comparison `remaining < tolerance` is decided correctly whenever the exact value is
+   at least delta away from the threshold and either way otherwise (delta = the accumulated rounding error of one
+   accumulation window: at most about a dozen subtractions, i.e. about 2e-15 res in binary64 -- that bound itself is not
+   proved here).  All bounds survive with delta of slack; the exact filter is the case delta = 0. *)
+Theorem C12_filter_robust : forall res delta dmax ds m, 0 < res -> 0 <= delta ->
+  rmask res delta res ds m -> Forall (fun d => 0 <= d /\ d <= dmax) ds -> ds <> [] ->
+  let S := seg_loop 0 m ds in
+  Forall (fun T => T <= (9 # 10) * res + delta + dmax) S /\
+  all_but_last (fun T => (9 # 10) * res - delta < T) S /\
+  qsum S == qsum ds.
+Proof. exact filter_bounds_robust. Qed.
+Theorem C12_exact_is_robust : forall res ds rem, rmask res 0 rem ds (mask_loop res rem ds).
+Proof. exact exact_is_rmask. Qed.
+Print Assumptions C12_filter_robust.
 
 (* from travelled (arc) length to chord length and chord error, on a circle of radius r (real numbers; standard-library
    axioms of the reals, see Print Assumptions): a segment spanning arc length s <= 2 r has chord between
